@@ -71,6 +71,7 @@ def generate(rng):
         scn['tear'] = [rng.choice([0, 1, 5, 40]) for _ in range(rng.randint(1, 4))]
     scn['shell_latency'] = rng.choice([1, 50, 2000, 40000])
     scn['hang_cmd'] = rng.random() < 0.3
+    scn['hup_write'] = rng.choice(['ok', 'ok', 'ok', 'eio'])
     scn['vt_cap_s'] = 2000
     scn['step_cap'] = 300000
     return scn
